@@ -142,6 +142,9 @@ func (it *Interp) intrinsic(name string, fn *ssa.Function, a []Val) Val {
 			defer func() { it.top, it.depth = saved, savedDepth }()
 			it.call(a[1], nil, nil)
 		}()
+		if !panicked {
+			it.obligation(id, TTrue, "") // this path ran to completion without a panic
+		}
 		return Bool(panicked)
 	case "Panics":
 		// runs f and reports whether it panicked (no obligation)
